@@ -192,9 +192,11 @@ def hiveG : Leaf2 := .guard fun d => d == .HIVE
 def hiveDefG : Leaf2 := .guard fun d => d == .HIVE || d == .DEFAULT
 /-- a decimal numeral -/
 def numeralB (v : String) : Bool := !v.toList.isEmpty && v.toList.all fun c => isDigit c.toNat
-/-- an index expression whose text is complete in front of `]`: a column, a numeral, or anything printed in brackets -/
+/-- a literal that begins with a quote -/
+def quotedB (v : String) : Bool := v.toList.head? == some '\'' || v.toList.head? == some '"'
+/-- an index expression whose text is complete in front of `]`: a column, a numeral, a quoted string, or anything printed in brackets -/
 def idxInnerOK (i : Expr) : Bool :=
-  decide (PR.lvl i > 8) || (match i with | .column _ _ => true | .literal v => numeralB v | _ => false)
+  decide (PR.lvl i > 8) || (match i with | .column _ _ => true | .literal v => numeralB v || quotedB v | _ => false)
 /-- the single element of a grouping set: a column, a bracketed list / sub-query, or anything printed in brackets (the printer decides by the
 first CHARACTER of the element's text whether it adds brackets, the token-level printer by the first TOKEN) -/
 def setElemOK (e : Expr) : Bool :=
